@@ -88,7 +88,18 @@ def make_data(call, w, p, content):
         f = io.BytesIO(content)
         f.seek(call.off)
         return f, f
+    if kind == "decoder":
+        # a buffered reader whose `name` is not where its bytes come from (gzip.open(), a decrypting or
+        # transcoding reader ...): `name` is an existing file with other content and another size
+        f = NamedReader(content)
+        f.name = call.other_name(w)
+        call.off = 0
+        return f, f
     raise ValueError(kind)
+
+
+class NamedReader(io.BytesIO):
+    name = None
 
 
 class StoreObj(Call):
@@ -105,6 +116,9 @@ class StoreObj(Call):
 
     def data(self, w):
         return make_data(self, w, w.src(self.k), w.contents[self.k])
+
+    def other_name(self, w):
+        return w.src((self.k + 1) % w.NK)
 
     def run(self, w, s):
         data, stream = self.data(w)
@@ -249,6 +263,9 @@ class StoreMeta(Call):
         self.label = "store_metadata(pid%d, d%d%s, %r)" % (i, v, "" if kind == "path" else "," + kind, f)
         self.roles = "store_metadata(pid, doc%s, %s)" % ("" if kind == "path" else " as " + kind,
                                                         "default" if f is None else "format")
+
+    def other_name(self, w):
+        return w.docsrc((self.v + 1) % w.ND)
 
     def run(self, w, s):
         data, self.stream = make_data(self, w, w.docsrc(self.v), w.docs[self.v])
